@@ -333,3 +333,54 @@ func graphChains(length int) []gspec {
 	rec([]string{"cjs"}, nil)
 	return out
 }
+
+// starCycleGraphs: export-star cycles (2-3 ES modules that `export *` each other in a ring), one member of which
+// also star-exports a leaf (CommonJS or ESM); the entry imports the members' namespaces in every rotation and reads
+// the leaf's names statically (ns.foo), by key list and — for an ESM leaf — through named imports.
+func starCycleGraphs() []ggraph {
+	var out []ggraph
+	for _, L := range []int{2, 3} {
+		for holder := 0; holder < L; holder++ {
+			for _, leafKind := range []string{"cjs", "esm"} {
+				for first := 0; first < L; first++ {
+					files := map[string]string{}
+					leaf := "/leaf.cjs"
+					if leafKind == "esm" {
+						leaf = "/leaf.mjs"
+						files[leaf] = "$(\"leaf\", \"start\");\nexport const foo = \"foo-from-leaf\";\nexport let bar = 2;\n"
+					} else {
+						files[leaf] = "$(\"leaf\", \"start\");\nexports.foo = \"foo-from-leaf\";\nexports.bar = 2;\n"
+					}
+					for k := 0; k < L; k++ {
+						body := fmt.Sprintf("export * from \"./c%d.mjs\";\n", (k+1)%L)
+						if k == holder {
+							body += fmt.Sprintf("export * from \".%s\";\n", leaf)
+						}
+						body += fmt.Sprintf("$(\"c%d\", \"start\");\nexport const own%d = \"own%d\";\n", k, k, k)
+						files[fmt.Sprintf("/c%d.mjs", k)] = body
+					}
+					var entry strings.Builder
+					for r := 0; r < L; r++ {
+						k := (first + r) % L
+						entry.WriteString(fmt.Sprintf("import * as ns%d from \"./c%d.mjs\";\n", k, k))
+					}
+					if leafKind == "esm" {
+						entry.WriteString(fmt.Sprintf("import {foo as fooNamed, own%d as ownNamed} from \"./c%d.mjs\";\n", holder, (holder+1)%L))
+					}
+					entry.WriteString("export const done = 1;\n$(\"entry\", \"start\");\n")
+					for k := 0; k < L; k++ {
+						entry.WriteString(fmt.Sprintf("$(\"entry\", \"ns%d\", ns%d.foo, ns%d.bar, ns%d.own0, ns%d.own%d, Object.keys(ns%d).sort());\n", k, k, k, k, k, L-1, k))
+					}
+					if leafKind == "esm" {
+						entry.WriteString("$(\"entry\", \"named\", fooNamed, ownNamed);\n")
+					}
+					files["/entry.mjs"] = entry.String()
+					kinds := map[string]string{"entry": "esm", "leaf": leafKind}
+					out = append(out, ggraph{Files: files, Entry: "/entry.mjs", EntryKind: "esm", Kinds: kinds,
+						Desc: []string{fmt.Sprintf("star-cycle L=%d holder=c%d leaf=%s first=c%d", L, holder, leafKind, first)}})
+				}
+			}
+		}
+	}
+	return out
+}
